@@ -152,6 +152,10 @@ fn run_case(seed: u64, index: u64, scratch: &std::path::Path, rep: &mut Report) 
     let mut yielded = 0usize;
     let mut kept: Vec<Kept> = Vec::new();
     let keep_upto = rng.below(4); // how long earlier events are kept: 0 never .. 3 across drop
+    // Under Miri looking at a kept event after the buffer was reused is itself the undefined
+    // behaviour of known finding D6 (reported natively by comparing contents); keep the Miri
+    // runs for everything else the decoder does.
+    let keep_upto = if cfg!(miri) { 0 } else { keep_upto };
     let mut ended = false;
     let mut diverged = false;
     {
